@@ -131,7 +131,7 @@ TEXT = {
                  "the peers whose flag changed, with the new value (T3); the timer handler (round counter, wait-until-every-peer-reported-rates gate, rate "
                  "selection by seeder state, optimistic candidate) is either no change or an admissible rotation, so T1/T2 hold at every tick "
                  "(T1_tick_keeps_slot_bounds, T2_tick_postcondition); on the connection task's side every own-state broadcast is put on the wire as exactly "
-                 "the matching Choke/Unchoke/nothing, for every script (C14_trace, monitor P14); the measured rate is, from the second statistics interval "
+                 "the matching Choke/Unchoke/nothing, for every script (C14_trace, monitor P14); each peer's view agrees with the client's - after every admissible history every connected peer was last told exactly the choke flag on record (T5_peer_view_agrees: the messages are those of the bitfield reply and of the rotation's map); the measured rate is, from the second statistics interval "
                  "on, the mean of the bytes moved in the last two intervals, the first interval reports nothing (T4, statistics model, below 2^32 bytes per "
                  "queue). Tied to the real Session by command histories incl. real timer ticks with rates delivered as SyncStats commands, compared "
                  "after every operation; to the real connection task by broadcast scripts and by statistics scripts through its own timer handler.",
@@ -154,18 +154,26 @@ TEXT = {
                  "same monitor runs on the implementation's trace of every generated script.",
         "note": KERNEL + "the closed-loop model takes tokio's atomicity of command+reply per connection (the task blocks on its reply channel) and treats a "
                 "broadcast as an input like any other (its delay and loss are outside); it is tied to the code through its two halves (task scripts, manager "
-                "histories), not by an own differential run; file system (atomic rename), external modification of piece files and SHA-1 collisions outside.",
+                "histories) and by `sys` runs: the real Session with several real connection tasks, every command, reply and store replayed through the "
+                "product of the two models, T6 and the Have oracle evaluated on every step; file system (atomic rename), external modification of piece files and SHA-1 collisions outside.",
         "technique": "Lean 4 proof (closed-loop product of task and manager models: link invariant by induction over all interleavings; trace monitor proved sound for all scripts; case analysis of every handler) + the same monitor on implementation traces + differential correspondence",
     },
     "C11": {
-        "level": "Kernel-checked for EVERY script of frames, broadcasts, manager replies, timer ticks and stream ends (C11_trace, by the trace-monitor "
+        "level": "Kernel-checked for the WHOLE CLIENT with the broadcast channel in the loop (T4: any number of connection tasks and the manager in closed "
+                 "loop, a task handling SendHave i only after the manager broadcast it, broadcasts delayed or lost, every input, interleaving and chooser "
+                 "outcome): every Have any task has ever written was broadcast by the manager before, and for an index of the torrent that piece is owned "
+                 "and a piece file named by its listed hash with data hashing to it was written by a task fetching that piece (invariant over reachable "
+                 "states, using the C11 monitor's soundness per step, T2, C12's absorbing Have and C01.T6). And kernel-checked "
+                 "for EVERY script of frames, broadcasts, manager replies, timer ticks and stream ends (C11_trace, by the trace-monitor "
                  "soundness lemma and a case analysis of every handler): a Have is written only in reaction to the manager's SendHave - at once when the "
                  "peer does not choke us, otherwise held back and written first, in broadcast order, at the next Unchoke, leaving none - and the only "
                  "bitfield ever written is the one the manager computed at Init; the init bitfield has bit i set iff piece i is owned when Init is handled, "
                  "spare bits zero, for every status vector (T1, via the C07 bit-position theorem); the manager broadcasts SendHave i only in the step that "
                  "marks i owned (T2). The same monitor P11 is evaluated on the implementation's trace of every generated script.",
-        "note": KERNEL + "assumption made explicit: the broadcast channel never overflows (Lagged receivers lose announcements).",
-        "technique": "Lean 4 proof (trace monitor proved sound for all scripts by induction over the script; local theorems about SendHave / Unchoke / Init) + the same monitor on implementation traces + differential correspondence",
+        "note": KERNEL + "a lagging receiver loses announcements (tokio broadcast): that only removes Have frames, it cannot add one; T4's model takes the "
+                "atomicity of command+reply per connection as C01's closed loop does; an index outside the torrent is never assigned (C13.T1), T4 states "
+                "ownership for indices of the torrent.",
+        "technique": "Lean 4 proof (whole-client invariant by induction over all interleavings of tasks, manager and broadcast channel; trace monitor proved sound for all scripts by induction over the script; local theorems about SendHave / Unchoke / Init) + the same monitor on implementation traces + differential correspondence",
     },
     "C10": {
         "level": "Kernel-checked for EVERY script of one connection task from a fresh connection (C10_trace, monitor P10 proved sound by induction over the "
